@@ -105,6 +105,11 @@ SRef(fn, a) ==
     [] fn = "concat" ->
          IF n >= 1 /\ (\A i \in 1..n : a[i].st = "k" /\ a[i].ty.k = "list") /\ AllSame({a[i].ty : i \in 1..n})
          THEN OKV(SeqV(a[1].ty, ConcatAll([i \in 1..n |-> Elems(a[i])])))
+         \* lists of different primitive element types with string among them: the element types unify to string,
+         \* whether or not some of the lists are empty
+         ELSE IF n >= 2 /\ (\A i \in 1..n : a[i].st = "k" /\ a[i].ty.k = "list" /\ IsPrimT(a[i].ty.e)) /\ (\E i \in 1..n : a[i].ty.e.k = "string")
+                       /\ (\A i \in 1..n : \A j \in 1..Len(Elems(a[i])) : LET x == Elems(a[i])[j] IN x.st # "unk" /\ (IsNumK(x) => Has(x.v, "q") /\ AbsI(x.v.q) < 4000000))
+         THEN OKV(SeqV(TList(TStr), ConcatAll([i \in 1..n |-> [j \in 1..Len(Elems(a[i])) |-> PrimToStr(Elems(a[i])[j])]])))
          ELSE IF n >= 1 /\ (\A i \in 1..n : a[i].st = "k" /\ a[i].ty.k = "tuple")
          THEN OKV(SeqV(TTup(ConcatAll([i \in 1..n |-> a[i].ty.es])), ConcatAll([i \in 1..n |-> Elems(a[i])])))
          ELSE UNDEF
